@@ -53,6 +53,8 @@ def generate(rng, tier, idx, keep_going=False):
             # one invocation with several paths from different Manifest trees: a small consistent tree and the tree
             # under test, in either order
             o['multi'] = rng.choice(['first', 'last'])
+        if o['api'] == 'both' and rng.random() < 0.35:
+            o['kg'] = True      # the same request with --keep-going: the exit status must say the same
     lms = [o['last_mtime'] for o in ops if o.get('last_mtime') is not None]
     if lms and rng.random() < 0.5:
         # same-size tampering stamped shortly AFTER a last_mtime of the run: within the same whole second, the next
@@ -111,6 +113,7 @@ def execute(sc):
                 if op.get('api') == 'both' and lm is None and real_sub:
                     target = os.path.join(w.root, sub) if sub else w.root
                     cli = run_cli(['verify', target])
+                    cli_kg = run_cli(['verify', '--keep-going', target]) if op.get('kg') else None
                     if op.get('multi'):
                         t0 = w.other_tree()
                         cli2 = run_cli(['verify'] + ([target, t0] if op['multi'] == 'first' else [t0, target]))
@@ -131,6 +134,10 @@ def execute(sc):
                     results.append(('INTERNAL', cli['name'], cli['exc']))
                 violations += check_cli_agrees(r, cli, 'verify %r' % sub)
                 counters['cli'] = counters.get('cli', 0) + 1
+                if op.get('kg') and cli_kg is not None and cli_kg.get('kind') == 'ok' and cli.get('kind') == 'ok' and cli_kg.get('rc') != cli.get('rc'):
+                    violations.append(viol('cli.disagrees', 'verify %r: exit status %r, with --keep-going %r' % (sub, cli.get('rc'), cli_kg.get('rc')), sig='keep-going'))
+                if op.get('kg'):
+                    counters['cli-keep-going'] = counters.get('cli-keep-going', 0) + 1
                 if op.get('multi'):
                     violations += check_cli_agrees(r, cli2, 'verify %r with a second, consistent tree on the same command line (%s)' % (sub, op['multi']))
                     counters['cli-multi-path'] = counters.get('cli-multi-path', 0) + 1
